@@ -171,7 +171,7 @@ def run_stream(state, stream, mode=0, file_backed=True):
     # (4) idle and closed at the end
     fin = sim.final()
     if fin['state'] != 1 or not fin['closed'] or not fin['sock_none']:
-        raise Violation('C12:not-idle', '%s: after the peer closed and ARTIM passed: state Sta%d, closed=%s'
+        raise Violation('C12:not-idle', '%s: after the peer closed and ARTIM passed: state Sta%s, closed=%s'
                         % (state, fin['state'], fin['closed']), case)
     # (5) an engaged user is told the association is gone
     inds = sim.indications()
